@@ -212,6 +212,9 @@ static void ep4_mul_reg_gls(ep4_t r, const ep4_t p, const bn_t k) {
 		ep4_norm(q[0], p);
 		for (size_t i = 1; i < 8; i++) {
 			ep4_psi(q[i], q[i - 1]);
+			/* The endomorphism of the KSS16/AFG16 curves returns projective
+			 * coordinates, the tables below are read as affine points. */
+			ep4_norm(q[i], q[i]);
 		}
 		for (size_t i = 0; i < 8; i++) {
 			ep4_neg(r, q[i]);
@@ -288,13 +291,17 @@ static void ep4_mul_reg_gls(ep4_t r, const ep4_t p, const bn_t k) {
 
 		for (size_t i = 0; i < c; i++) {
 			ep4_sub(q[1], r, q[i * m / c]);
+			/* Select between two affine points, otherwise the coordinates of
+			 * one system end up under the tag of the other. */
+			ep4_norm(q[1], q[1]);
+			ep4_norm(r, r);
 			fp4_copy_sec(r->x, q[1]->x, even[i]);
 			fp4_copy_sec(r->y, q[1]->y, even[i]);
 			fp4_copy_sec(r->z, q[1]->z, even[i]);
 		}
 
 		/* Convert r to affine coordinates. */
-		//ep4_norm(r, r);
+		ep4_norm(r, r);
 	}
 	RLC_CATCH_ANY {
 		RLC_THROW(ERR_CAUGHT);
@@ -523,9 +530,12 @@ void ep4_mul_basic(ep4_t r, const ep4_t p, const bn_t k) {
 void ep4_mul_slide(ep4_t r, const ep4_t p, const bn_t k) {
 	ep4_t t[1 << (RLC_WIDTH - 1)], q;
 	uint8_t win[RLC_FP_BITS + 1];
+	bn_t _m, _n;
 	size_t l;
 
 	ep4_null(q);
+	bn_null(_m);
+	bn_null(_n);
 
 	if (bn_is_zero(k) || ep4_is_infty(p)) {
 		ep4_set_infty(r);
@@ -539,6 +549,12 @@ void ep4_mul_slide(ep4_t r, const ep4_t p, const bn_t k) {
 		}
 
 		ep4_new(q);
+		bn_new(_m);
+		bn_new(_n);
+
+		/* The window buffer only covers the bit length of the order. */
+		ep4_curve_get_ord(_n);
+		bn_mod(_m, k, _n);
 
 		ep4_copy(t[0], p);
 		ep4_dbl(q, p);
@@ -558,7 +574,7 @@ void ep4_mul_slide(ep4_t r, const ep4_t p, const bn_t k) {
 
 		ep4_set_infty(q);
 		l = RLC_FP_BITS + 1;
-		bn_rec_slw(win, &l, k, RLC_WIDTH);
+		bn_rec_slw(win, &l, _m, RLC_WIDTH);
 		for (size_t i = 0; i < l; i++) {
 			if (win[i] == 0) {
 				ep4_dbl(q, q);
@@ -571,9 +587,6 @@ void ep4_mul_slide(ep4_t r, const ep4_t p, const bn_t k) {
 		}
 
 		ep4_norm(r, q);
-		if (bn_sign(k) == RLC_NEG) {
-			ep4_neg(r, r);
-		}
 	}
 	RLC_CATCH_ANY {
 		RLC_THROW(ERR_CAUGHT);
@@ -583,6 +596,8 @@ void ep4_mul_slide(ep4_t r, const ep4_t p, const bn_t k) {
 			ep4_free(t[i]);
 		}
 		ep4_free(q);
+		bn_free(_m);
+		bn_free(_n);
 	}
 }
 
